@@ -70,6 +70,15 @@ def run(prog, rep, tier, repo):
         if op == 'Neg':
             nneg += 1
             got = canon_comm(ret) if not isinstance(ret, tuple) else ret
+            # -1.0 * x (either order) is IEEE-exactly -x, including the sign of zero; 0.0 - x is not (it loses -0.0 -> +0.0)
+            if isinstance(got, frozenset):
+                def _negform(e):
+                    if isinstance(e, tuple) and e[0] == 'b' and e[1] == 'Mul':
+                        for u, v in ((e[2], e[3]), (e[3], e[2])):
+                            if u == ('c', -1.0):
+                                return ('neg', v)
+                    return e
+                got = frozenset(_negform(e) for e in got)
             want = frozenset([('neg', ('sym', 'SELF'))])
             rule = 'wire-neg'
         elif assign:
